@@ -101,6 +101,12 @@ def run_tokens(X, src, wall=3.0):
     return "HANG", toks
 
 
+def safe_tokens(X, src, wall=2.0):
+    """token list of the unmodified tokenizer, or None when it fails or does not finish (never hangs the caller)"""
+    k, toks = run_tokens(X, src, wall)
+    return toks if k == "ok" else None
+
+
 def run_parse(X, src, mode="exec", wall=5.0, **kw):
     tl = time_limit(wall)
     with tl, default_recursion():
@@ -552,6 +558,9 @@ def tiling(T, toks, lines, vin=_plain_in):
     for i, t in enumerate(toks):
         st, en = tuple(t.start), tuple(t.end)
         virtual = t.type in (T.DEDENT, T.ENDMARKER) or (t.type == T.NEWLINE and len(t.string) == 0)
+        if t.type == T.DEDENT and i + 1 < len(toks) and toks[i + 1].type not in (T.DEDENT, T.ENDMARKER) and tuple(toks[i + 1].start) != st:
+            return {"kind": "overlap-or-disorder", "observed": f"DEDENT #{i} at {st} but the next token starts at {tuple(toks[i + 1].start)}",
+                    "expected": "a DEDENT sits at the start of the token that follows it"}
         if not virtual:
             if st > en:
                 return {"kind": "start-after-end", "observed": f"token {i} {t.type.name} {st}-{en}", "expected": "start <= end"}
